@@ -12,7 +12,9 @@ use crate::c07::{compress_for, n_threads, quiet_stdout, scratch_dir, snapshot, s
 use crate::proto::*;
 use crate::rng::Rng;
 use log4rs::append::rolling_file::policy::compound::{
-    roll::fixed_window::FixedWindowRoller, trigger::Trigger, CompoundPolicy,
+    roll::fixed_window::FixedWindowRoller,
+    trigger::{size::SizeTrigger, Trigger},
+    CompoundPolicy,
 };
 use log4rs::append::rolling_file::{LogFile, RollingFileAppender};
 use log4rs::append::Append;
@@ -74,6 +76,8 @@ enum Op {
 
 struct Setup {
     mode: bool,
+    /// `Some(limit)`: the real `SizeTrigger` (post-process) instead of the scripted trigger
+    size: Option<u64>,
     pre: bool,
     pattern: String,
     base: u32,
@@ -86,8 +90,11 @@ fn build(root: &Path, s: &Setup, answer: &Arc<AtomicBool>) -> Result<RollingFile
         .base(s.base)
         .build(&format!("{}/{}", root.display(), s.pattern), s.count)
         .map_err(|_| ())?;
-    let trigger = ScriptTrigger { pre: s.pre, answer: answer.clone() };
-    let policy = CompoundPolicy::new(Box::new(trigger), Box::new(roller));
+    let trigger: Box<dyn Trigger> = match s.size {
+        Some(limit) => Box::new(SizeTrigger::new(limit)),
+        None => Box::new(ScriptTrigger { pre: s.pre, answer: answer.clone() }),
+    };
+    let policy = CompoundPolicy::new(trigger, Box::new(roller));
     RollingFileAppender::builder()
         .append(s.mode)
         .encoder(Box::new(PatternEncoder::new("{m}")))
@@ -122,8 +129,16 @@ pub fn exec(fields: &[&str]) -> String {
         fields[4].parse::<u32>(),
         dec_str(fields[5]),
     ) {
-        (m @ ("0" | "1"), p @ ("0" | "1"), Some(pattern), Ok(base), Ok(count), Some(file)) if count > 0 && pattern.contains("{}") => {
-            Setup { mode: m == "1", pre: p == "1", pattern, base, count, file }
+        (m @ ("0" | "1"), p, Some(pattern), Ok(base), Ok(count), Some(file)) if count > 0 && pattern.contains("{}") => {
+            // trigger field: 0 / 1 = scripted post- / pre-process trigger, s<limit> = SizeTrigger
+            let size = p.strip_prefix('s').and_then(|l| l.parse::<u64>().ok());
+            if size.is_none() && p != "0" && p != "1" {
+                return "bad-case".to_owned();
+            }
+            if size.is_some() && !bg {
+                return "bad-case".to_owned();
+            }
+            Setup { mode: m == "1", size, pre: p == "1", pattern, base, count, file }
         }
         _ => return "bad-case".to_owned(),
     };
@@ -391,6 +406,7 @@ fn exec_bg(
         }
     }
     let first_arg: u32 = if setup.count >= 2 { setup.base + setup.count - 2 } else { u32::MAX };
+    let top_name = setup.pattern.replace("{}", &(setup.base as u64 + setup.count as u64 - 1).to_string());
     let hook = Arc::new(Mutex::new(BgHook { root: root.clone(), image: image.clone(), rot: -1, step: 0, crashed: false }));
     {
         let h = hook.clone();
@@ -444,7 +460,27 @@ fn exec_bg(
                     let ok = wait_quiescent(baseline);
                     out.push(format!("{}|-|{}", if ok { "q" } else { "TIMEOUT" }, snapshot_canon(&root, &setup.file)));
                 }
-                Op::Obstacle | Op::Unobstacle => out.push("unsupported|-|-".to_owned()),
+                Op::Obstacle => {
+                    // placed at a quiescent point; it then stays in the way of the rotation threads
+                    // of the following appends
+                    wait_quiescent(baseline);
+                    let top = root.join(&top_name);
+                    if top.exists() {
+                        out.push(format!("o:skip|-|{}", snapshot_canon(&root, &setup.file)));
+                    } else {
+                        let _ = std::fs::create_dir_all(&top);
+                        let _ = std::fs::write(top.join("obstacle"), b"x");
+                        out.push(format!("o:placed|-|{}", snapshot_canon(&root, &setup.file)));
+                    }
+                }
+                Op::Unobstacle => {
+                    wait_quiescent(baseline);
+                    let top = root.join(&top_name);
+                    if top.is_dir() {
+                        let _ = std::fs::remove_dir_all(&top);
+                    }
+                    out.push(format!("u|-|{}", snapshot_canon(&root, &setup.file)));
+                }
                 Op::Append(msg, ans) => {
                     answer.store(*ans, Ordering::SeqCst);
                     let crash_here = *ans && crash.map_or(false, |(n, _)| n == attempts);
@@ -510,6 +546,7 @@ fn enc_ops(ops: &[Op]) -> String {
 
 struct Hist {
     mode: bool,
+    size: Option<u64>,
     pre: bool,
     pattern: &'static str,
     base: u32,
@@ -524,7 +561,10 @@ fn emit_hist(emit: &mut dyn FnMut(String), h: &Hist, faults: &[(usize, usize)], 
     emit(format!(
         "{}\t{}\t{}\t{}\t{}\t{}\t{}\t{}\t{}\t{}",
         enc_bool(h.mode),
-        enc_bool(h.pre),
+        match h.size {
+            Some(l) => format!("s{}", l),
+            None => enc_bool(h.pre).to_owned(),
+        },
         enc_str(h.pattern),
         h.base,
         h.count,
@@ -552,7 +592,6 @@ fn random_hist_bg(rng: &mut Rng, max_ops: u64, mode: bool, pre: bool, count: u32
     let mut ops = vec![];
     for op in h.ops.into_iter() {
         match op {
-            Op::Obstacle | Op::Unobstacle => ops.push(Op::Quiesce),
             Op::Append(m, t) => {
                 ops.push(Op::Append(m, t || rng.chance(1, 4)));
                 if rng.chance(1, 6) {
@@ -612,7 +651,7 @@ fn random_hist(rng: &mut Rng, max_ops: u64, mode: bool, pre: bool, count: u32) -
             }
         }
     }
-    Hist { mode, pre, pattern, base, count, init, ops }
+    Hist { mode, size: None, pre, pattern, base, count, init, ops }
 }
 
 pub fn gen(rng: &mut Rng, n: usize, thorough: bool, emit: &mut dyn FnMut(String)) {
@@ -629,7 +668,7 @@ pub fn gen(rng: &mut Rng, n: usize, thorough: bool, emit: &mut dyn FnMut(String)
                     Op::Append("eee|".to_owned(), true),
                     Op::Append("fff|".to_owned(), false),
                 ];
-                let h = Hist { mode, pre, pattern: "app.log.{}", base: 0, count, init: vec![], ops };
+                let h = Hist { mode, size: None, pre, pattern: "app.log.{}", base: 0, count, init: vec![], ops };
                 emit_hist(emit, &h, &[], None);
                 for a in 0..3usize {
                     for k in 0..count as usize {
@@ -661,7 +700,7 @@ pub fn gen(rng: &mut Rng, n: usize, thorough: bool, emit: &mut dyn FnMut(String)
                     ops.push(Op::Unobstacle);
                     ops.push(Op::Append("<x4>".to_owned(), true));
                     ops.push(Op::Append("<x5>".to_owned(), true));
-                    let h = Hist { mode, pre, pattern, base: 1, count, init: vec![], ops };
+                    let h = Hist { mode, size: None, pre, pattern, base: 1, count, init: vec![], ops };
                     emit_hist(emit, &h, &[], None);
                 }
             }
@@ -679,7 +718,7 @@ pub fn gen(rng: &mut Rng, n: usize, thorough: bool, emit: &mut dyn FnMut(String)
                 ops.push(Op::Quiesce);
                 ops.push(Op::Append("<tail>".to_owned(), false));
                 ops.push(Op::Quiesce);
-                let h = Hist { mode, pre, pattern: if count % 2 == 0 { "app.log.{}" } else { "arch/app.{}.log.gz" }, base: 0, count, init: vec![], ops };
+                let h = Hist { mode, size: None, pre, pattern: if count % 2 == 0 { "app.log.{}" } else { "arch/app.{}.log.gz" }, base: 0, count, init: vec![], ops };
                 emit_hist_bg(emit, &h, &[], None);
             }
         }
@@ -705,6 +744,44 @@ pub fn gen(rng: &mut Rng, n: usize, thorough: bool, emit: &mut dyn FnMut(String)
                 emitted_bg += 1;
             }
         }
+    }
+    // family `bg-stream` (the C05 reading under background rotation): the real SizeTrigger decides,
+    // appends go on while rotation threads run; at quiescence the stream read back must be the
+    // acknowledged stream minus whole oldest files
+    let n_stream = if thorough { n / 10 } else { n / 9 };
+    for it in 0..n_stream {
+        let mode = rng.chance(2, 3);
+        let count = rng.range(1, 4) as u32;
+        let limit = *rng.pick(&[0u64, 4, 9, 20, 45]);
+        let pattern = if rng.chance(1, 5) { "arch/app.{}.log.gz" } else { "app.log.{}" };
+        let mut init: Vec<(String, Vec<u8>)> = vec![];
+        if rng.chance(1, 3) {
+            init.push(("app.log".to_owned(), b"<old-active>".to_vec()));
+        }
+        if rng.chance(1, 3) {
+            init.push((pattern.replace("{}", "0"), b"<old0>".to_vec()));
+        }
+        let n_ops = rng.range(3, if thorough { 40 } else { 16 });
+        let mut ops = vec![];
+        for i in 0..n_ops {
+            if rng.chance(1, 20) {
+                ops.push(Op::Restart);
+                continue;
+            }
+            let mut msg = format!("<{}", i);
+            for _ in 0..rng.below(14) {
+                msg.push((b'a' + rng.below(26) as u8) as char);
+            }
+            msg.push('>');
+            ops.push(Op::Append(msg, false));
+            if rng.chance(1, 7) {
+                ops.push(Op::Quiesce);
+            }
+        }
+        ops.push(Op::Quiesce);
+        let _ = it;
+        let h = Hist { mode, size: Some(limit), pre: false, pattern, base: *rng.pick(&[0u32, 1]), count, init, ops };
+        emit_hist_bg(emit, &h, &[], None);
     }
     // random histories; every step of every rotation as point of failure and of death
     let max_ops = if thorough { 30 } else { 12 };
